@@ -1,9 +1,9 @@
-(* Gate-level generators used by synthesize (pyrtl/corecircuits.py _basic_*):
+(* Gate-level generators used by synthesize (the _basic_xxx functions of pyrtl/corecircuits.py):
    definitions only, no proofs.
 
    A WireVector of bitwidth n is the list of its n one-bit wires, index 0 = least
    significant bit.  The generators are polymorphic in a gate algebra
-   (Gen/SynthGates.v `galg`): at `bool` they compute values, at gate expressions
+   (`galg` in Gen/SynthGates.v): at `bool` they compute values, at gate expressions
    (Pass/Synth.v) they build the circuit.  Every *expression* of the Python code
    (sum/carry of _one_bit_add, carry-in literal, `~b`, the top bit handed to
    concat(...) in _basic_add/_basic_sub, the _basic_lt/_basic_select/_basic_eq
